@@ -601,16 +601,11 @@ func (p *Parser) constAssertDecl() (*ConstAssertDecl, *ParseError) {
 		return nil, &ParseError{Message: "expected 'const_assert'", Token: p.peek()}
 	}
 
-	// const_assert can optionally have parentheses: const_assert(expr) or const_assert expr
-	hasParen := p.match(TokenLeftParen)
+	// The condition is an ordinary expression: const_assert(expr); is a
+	// parenthesised expression, const_assert (a) == b; a comparison.
 	cond, err := p.expression()
 	if err != nil {
 		return nil, err
-	}
-	if hasParen {
-		if err := p.expectErr(TokenRightParen); err != nil {
-			return nil, err
-		}
 	}
 
 	if err := p.expectSemicolon(); err != nil {
